@@ -318,7 +318,7 @@ class RunB:
             self.sems[target].release()
             self.sems[tid].acquire()
 
-    def lock_yield(self):
+    def lock_yield(self, owner_ident=None):
         """The running thread is waiting for a library lock another (parked)
         thread holds: pass the baton, round robin."""
         tid = self.current
@@ -328,6 +328,9 @@ class RunB:
             raise RuntimeError('library lock held by a finished thread')
         self.lock_rr = getattr(self, 'lock_rr', 0) + 1
         target = others[self.lock_rr % len(others)]
+        for t_, i_ in getattr(self, 'idents', {}).items():
+            if i_ == owner_ident and t_ in others:
+                target = t_   # the thread that holds the lock
         self.ev('lock-wait', tid, target)
         self.count(self.fired, 'lock_wait_switch')
         self.current = target
@@ -336,6 +339,9 @@ class RunB:
 
     def worker(self, tid):
         self.sems[tid].acquire()
+        if not hasattr(self, 'idents'):
+            self.idents = {}
+        self.idents[tid] = threading.get_ident()
         try:
             prog = self.trace['threads'][tid]
             for idx, op in enumerate(prog):
